@@ -258,12 +258,13 @@ func (m *ipModel) classify(want tri, iv ival) (key, why string) {
 		switch {
 		case b == nil:
 			return "C18/unclassified/model-inconsistent", "expected banned without a ban record"
-		case b.asyncRisk && !(b.perm && b.permCertain && b.laterAutoTemp):
-			return "C18/async-unban-erases-fresh-ban/IsBanned-on-expired-record-then-new-ban",
-				"an earlier query saw the expired record and spawned `go UnbanIP`; the ban written afterwards is gone"
 		case b.perm && b.auto && !b.permCertain:
+			// first: with an uncertain permanent decision no other cause can be told apart from the forgotten total
 			return "C18/permanent-total-forgotten-by-cleanup/window-emptied-between-failures",
 				fmt.Sprintf("failures since last success=%d >= PermanentBanAt=%d, but the cleanup task deleted the record (and its lifetime total) while the window was empty", m.totalMax, m.cfg.P)
+		case b.asyncRisk && !(b.perm && b.laterAutoTemp):
+			return "C18/async-unban-erases-fresh-ban/IsBanned-on-expired-record-then-new-ban",
+				"an earlier query saw the expired record and spawned `go UnbanIP`; the ban written afterwards is gone"
 		case b.perm && b.auto && b.laterAutoTemp:
 			return "C18/permanent-ban-replaced-by-temporary/RecordFailure-after-permanent",
 				"a later RecordFailure below the permanent total wrote a temporary record over the permanent one; it then expired"
